@@ -4,6 +4,9 @@ Streams (model `Wpull.Url` vs the real code in ctx.repo):
   parse    URLInfo.parse + every documented attribute / accessor, or the exception class
   orlog    parse_url_or_log
   join     wpull.scraper.util.urljoin_safe (stdlib urllib.parse.urljoin = logged parameter)
+  scrape   the consumer of the logging variant: the real ProcessingRule.scrape_document / _process_scrape_info (real FetchRule,
+           real URLRewriter with every option combination incl. none, stub ItemSession table and scraper result) on link lists
+           mixing parseable links with every class of unparseable one: never raises, unparseable skipped, parseable queued
   int / consts / unidb
 Direct oracle on the real code: parse raises nothing but ValueError, returns within the time guard, every
 attribute of a result can be read; parse_url_or_log never raises; urljoin raises only ValueError and
@@ -19,7 +22,7 @@ RULE = ('parse/orlog: malformed stream (bracket and colon soup over {h t p : / .
         '63/64/300-character labels, IPv6 bracket forms, lone surrogates in every component, Unicode spaces and digits), '
         'the string constants of wpull/url_test.py and 1-3 character-level mutations of them, grammar-directed URLs; '
         '12% default_scheme in {None, "", ftp, https, mailto, x.y}, 18% encoding != utf-8; join: (base, link) pairs from the same '
-        'pools plus scheme-relative links; thorough adds all strings of length <= 4 (+ "http://" + length <= 5) over the soup '
+        'pools plus scheme-relative links; scrape: link lists (junk classes x good links x mutated/grammar links with #! fragments and session ids) x 5 URLRewriter settings; thorough adds all strings of length <= 4 (+ "http://" + length <= 5) over the soup '
         'alphabet. non-trivial = input non-empty; distinct by (stream, url, default_scheme, encoding)')
 TRUSTED = list(uc.TRUSTED_COMMON) + [
     'urllib.parse.urljoin raises only ValueError (hypothesis of urljoin_safe_only_valueerror; monitored on every sampled call)']
@@ -98,6 +101,155 @@ def join_batch(ctx, wu, pairs):
         ctx.sample({'stream': 'join', 'base': pairs[0][0], 'url': pairs[0][1]})
 
 
+# ------------------------------------------------------------------ consumer of parse_url_or_log: ProcessingRule
+class _Table:
+    def __init__(self):
+        self.added = []
+
+    def add_many(self, infos):
+        self.added.extend(info.url for info in infos)
+
+    def remove_many(self, urls):
+        pass
+
+
+class _AppSession:
+    def __init__(self):
+        self.factory = {'URLTable': _Table()}
+
+
+class _Scraper:
+    """stands in for DemuxDocumentScraper: returns fixed link contexts"""
+    def __init__(self, links, encoding='utf-8'):
+        self.links, self.encoding = links, encoding
+
+    def scrape_info(self, request, response, link_type=None):
+        from wpull.scraper.base import ScrapeResult, LinkContext
+        ctxs = [LinkContext(link, inline=(k % 3 == 0), linked=(k % 3 != 0)) for k, link in enumerate(self.links)]
+        return {self: ScrapeResult(ctxs, self.encoding)}
+
+
+REWRITER_COMBOS = [None, (False, False), (True, False), (False, True), (True, True)]
+
+
+def scrape_batch(ctx, wu, link_lists):
+    """drive the real ProcessingRule.scrape_document with each URLRewriter option combination:
+    never raises; unparseable links are skipped; every parseable link is queued"""
+    from wpull.pipeline.item import URLRecord, Status
+    from wpull.pipeline.session import ItemSession
+    from wpull.processor.rule import FetchRule, ProcessingRule
+    from wpull.protocol.http.request import Request
+    from wpull.urlrewrite import URLRewriter
+    reqs, meta = [], []
+    for links in link_lists:
+        for combo in REWRITER_COMBOS:
+            record = URLRecord()
+            record.url = 'http://example.com/'
+            record.status = Status.in_progress
+            record.level = 0
+            record.inline_level = None
+            record.root_url = None
+            record.parent_url = None
+            record.link_type = None
+            app = _AppSession()
+            item = ItemSession(app, record)
+            item.request = Request('http://example.com/')
+            rewriter = URLRewriter(hash_fragment=combo[0], session_id=combo[1]) if combo else None
+            rule = ProcessingRule(FetchRule(), document_scraper=_Scraper(links), url_rewriter=rewriter)
+            case = {'stream': 'scrape', 'links': links, 'rewriter': list(combo) if combo else None}
+            wu.URLInfo.parse.__func__.cache_clear()
+            exc = None
+            try:
+                with uc.guard():
+                    try:
+                        rule.scrape_document(item)
+                        item.finish()
+                    except uc.Timeout:
+                        raise
+                    except BaseException as e:
+                        exc = e
+            except uc.Timeout:
+                ctx.fail('nontermination', 'scrape_document', case, 'timeout')
+                continue
+            added = app.factory['URLTable'].added
+            ctx.case(('scrape', tuple(links), combo), nontrivial=bool(links),
+                     tags=['scrape:' + ('exc' if exc else 'ok'), 'scrape:rewriter=%s' % (combo,)])
+            if exc is not None:
+                ctx.fail('raises', 'scrape_document', case,
+                         'ProcessingRule.scrape_document raised %s: %s' % (type(exc).__name__, str(exc)[:200]))
+                continue
+            # expected: the parseable links (independently, straight through the logging variant + rewriter)
+            expected = []
+            for link in links:
+                wu.URLInfo.parse.__func__.cache_clear()
+                try:
+                    info = wu.parse_url_or_log(link)
+                except Exception:
+                    info = None
+                if info is None:
+                    continue
+                if rewriter is not None:
+                    try:
+                        info = rewriter.rewrite(info)
+                    except Exception as e:
+                        ctx.fail('raises', 'URLRewriter.rewrite', case, 'rewrite raised %s for %r' % (type(e).__name__, link))
+                        continue
+                expected.append(info.url)
+            if sorted(set(added)) != sorted(set(expected)):
+                ctx.fail('links-lost', 'scrape_document', case,
+                         'queued %r, expected the parseable links %r' % (sorted(set(added))[:8], sorted(set(expected))[:8]))
+            if combo is None:
+                meta.append((links, added))
+    # model: which links does the logging variant keep (no rewriter => queued set = kept normal forms)
+    flat = [(k, link) for k, (links, _) in enumerate(meta) for link in links]
+    cases = [uc.Case(link, 'http', 'utf-8', 'scrape') for _, link in flat]
+    for c in cases:
+        uc.run_real(wu, c, 'orlog')
+    replies = ctx.model.ask([c.line for c in cases])
+    kept = {}
+    for (k, link), rep in zip(flat, replies):
+        if rep.startswith('some ='):
+            from runner import dec_str
+            kept.setdefault(k, set()).add(dec_str(rep[len('some ='):]))
+        elif rep != 'none':
+            kept.setdefault(k, set()).add(rep)
+    for k, (links, added) in enumerate(meta):
+        if set(added) != kept.get(k, set()):
+            ctx.disagree('scrape', {'stream': 'scrape', 'links': links, 'rewriter': None},
+                         sorted(kept.get(k, set()))[:8], sorted(set(added))[:8])
+    if link_lists:
+        ctx.sample({'stream': 'scrape', 'links': link_lists[0][:6], 'rewriter': None})
+
+
+JUNK_LINKS = ['http://[::1/unclosed', 'http://exa mple.com/', 'http://example.com:99999999/', 'http://' + 'a' * 70 + '.com/',
+              'http://example.com/\ud800', 'http://:/', '', ':', 'http://', 'http://\udc80@h/', 'http://h:x/', 'http://[fe80::1%eth0]/',
+              'http://a..b/', '\x00', 'http://h/\x01', '//', 'http://@/', 'http://[]', 'http://é' + 'a' * 64 + '.com/']
+GOOD_LINKS = ['http://example.com/page#!state', 'http://example.com/a.aspx?sid=0123456789abcdef0123456789abcdef',
+              'http://example.com/x?a=b#!c', 'https://example.com/(S(abcdefghijklmnopqrstuvwx))/p.aspx', 'ftp://example.com/f',
+              'mailto:x@y', 'example.com/naked', 'http://example.com/?jsessionid=0123456789abcdef0123456789abcdef&z=1#!']
+
+
+def gen_link_lists(ctx, rng, n):
+    seeds = uc.seed_urls(ctx.repo) or ['http://a/b']
+    out = [JUNK_LINKS + GOOD_LINKS, list(JUNK_LINKS), list(GOOD_LINKS), []]
+    for _ in range(n):
+        links = []
+        for _ in range(rng.randrange(1, 8)):
+            r = rng.random()
+            if r < 0.3:
+                links.append(rng.choice(JUNK_LINKS))
+            elif r < 0.5:
+                links.append(uc.gen_malformed(rng))
+            elif r < 0.65:
+                links.append(rng.choice(GOOD_LINKS))
+            elif r < 0.8:
+                links.append(uc.mutate(rng, rng.choice(seeds + GOOD_LINKS)))
+            else:
+                links.append(uc.Spec(rng).render(rng) + rng.choice(['', '#!frag', '#!a=b&c', '?sid=' + 'a' * 32, '#!']))
+        out.append(links)
+    return out
+
+
 def gen_cases(ctx, rng, n_mal, n_seed, n_spec):
     seeds = uc.seed_urls(ctx.repo)
     cases = [uc.Case(s, kind='seed') for s in seeds]
@@ -153,6 +305,8 @@ def replay(ctx, case, kind=None, where=None):
         batch(ctx, wu, [uc.case_of_json(case)], op=s)
     elif s == 'join':
         join_batch(ctx, wu, [(case['base'], case['url'])])
+    elif s == 'scrape':
+        scrape_batch(ctx, wu, [case['links']])
     else:
         raise Infra('unknown replay stream %r' % s)
 
@@ -172,6 +326,7 @@ def run(ctx):
         ol = [uc.Case(c.url, 'http', c.encoding, c.kind) for c in cases[::3]]
         batch(ctx, wu, ol, op='orlog')
     join_batch(ctx, wu, gen_pairs(ctx, ctx.subrng('join'), ctx.scale(3000, 60000)))
+    scrape_batch(ctx, wu, gen_link_lists(ctx, ctx.subrng('scrape'), ctx.scale(400, 6000)))
     if ctx.tier == 'thorough' and ctx.boost == 1:
         exhaustive(ctx, wu)
         ctx.exhaustive = True
@@ -182,3 +337,4 @@ def search(ctx):
     rng = ctx.subrng('search')
     batch(ctx, wu, gen_cases(ctx, rng, ctx.scale(300, 800), ctx.scale(200, 500), ctx.scale(100, 300)))
     join_batch(ctx, wu, gen_pairs(ctx, rng, ctx.scale(100, 300)))
+    scrape_batch(ctx, wu, gen_link_lists(ctx, rng, ctx.scale(20, 60)))
